@@ -8,6 +8,7 @@ are feasible; on every feasible path z3 then decides the defining relation for A
 (listed as an assumption).  Square roots are exact (s >= 0, s*s = x).  A `sat` answer is replayed by running the real
 function with real numpy on the float matrices of the solver's model; only a numerically confirmed deviation is reported.
 """
+import json
 import time
 
 import numpy as np
@@ -382,6 +383,127 @@ def _cases(n, mm, im, pd):
     return out
 
 
+# ---- UCP matrix kernel: _descale_matrix(u0, _scale_matrix(A)) == A ----------------------------------------------------
+def _ucp_patterns(n):
+    import itertools
+    k = n * (n - 1) // 2
+    return [''.join(p) for p in itertools.product('pn', repeat=k)]
+
+
+def ucp_task(task):
+    """A = L.L^T with symbolic lower-triangular L (positive diagonal, off-diagonal signs fixed by `pattern`);
+    np.linalg.cholesky inside pharmpy.modeling.estimation is replaced by its contract (returns that L, argument must be
+    L.L^T).  Initial UCPs are 0.1 on the diagonal and +-0.1 off the diagonal with the sign of the Cholesky factor entry
+    (NONMEM's convention).  z3 decides that descaling the initial UCPs with the computed scale gives back A."""
+    import warnings
+    warnings.simplefilter('ignore')
+    import pharmpy.modeling.estimation as est
+    _, n, pattern = task
+    t0 = time.time()
+    name = f'conv.ucp_matrix[n={n},signs={pattern or "-"}]'
+    stats = dict(paths=0, queries=0, unsat=0, sat_confirmed=0, sat_unreplayable=0, unknown=0)
+    res = dict(task=task, name=name, verdict='inconclusive', detail=None, stats=stats)
+    L = [[z3.Real(f'l_{i}{j}') if j <= i else z3.RealVal(0) for j in range(n)] for i in range(n)]
+    A = _matmul(L, [[L[j][i] for j in range(n)] for i in range(n)])
+    base = [L[i][i] > 0 for i in range(n)]
+    u0 = np.zeros((n, n))
+    k = 0
+    for i in range(n):
+        u0[i, i] = 0.1
+        for j in range(i):
+            neg = pattern[k] == 'n'
+            k += 1
+            base.append(L[i][j] < 0 if neg else L[i][j] >= 0)
+            u0[i, j] = u0[j, i] = -0.1 if neg else 0.1
+    syms = [L[i][j] for i in range(n) for j in range(i + 1)]
+    calls = []
+
+    class Linalg(_Linalg):
+        def cholesky(self, a):
+            a = np.asarray(a)
+            if a.dtype != object:
+                return self._real.cholesky(a)
+            calls.append(_terms(a))
+            return _obj(L)
+
+    class Proxy(_NpProxy):
+        def __init__(self, real):
+            self._real = real
+            self.linalg = Linalg(real.linalg)
+    real_np = est.np
+    est.np = Proxy(np)
+    try:
+        def srun():
+            calls.clear()
+            scale = est._scale_matrix(_obj(A))
+            return _terms(est._descale_matrix(u0.copy(), scale)), list(calls)
+
+        paths, st = symnum.explore(srun, base=base, max_paths=256)
+        stats['paths'] += st['paths']
+        stats['queries'] += st['feasibility_queries']
+        if not st['complete']:
+            res.update(detail='path budget exceeded')
+            return res
+        reach, unknown, bad, left = 0, 0, None, 0
+
+        def num(vals):
+            Lf = np.array([[vals.get(f'l_{i}{j}', 0.0) if j <= i else 0.0 for j in range(n)] for i in range(n)])
+            Af = Lf @ Lf.T
+            est.np = real_np
+            try:
+                got = est._descale_matrix(u0.copy(), est._scale_matrix(Af))
+            finally:
+                est.np = proxy
+            return _close(got, Af, 1e-6)
+        proxy = est.np
+        for p in paths:
+            if p.error is not None:
+                left += 1
+                res['error'] = f'{type(p.error).__name__}: {p.error}'[:200]
+                continue
+            if symnum.witness(p, base) == 'sat':
+                reach += 1
+            v, cl = p.value
+            goal = z3.And(z3.BoolVal(len(cl) == 1), *([_all_eq(cl[0], A)] if len(cl) == 1 else []), _all_eq(v, A))
+            r, model = symnum.prove(p, base, goal)
+            stats['queries'] += 2
+            if r == 'unsat':
+                stats['unsat'] += 1
+            elif r == 'unknown':
+                stats['unknown'] += 1
+                unknown += 1
+            else:
+                vals = _model_floats(model, syms)
+                try:
+                    ok = num(vals)
+                except Exception as e:  # noqa
+                    ok = False
+                    vals['error'] = f'{type(e).__name__}: {e}'
+                if not ok:
+                    stats['sat_confirmed'] += 1
+                    bad = ('descale(u0, scale(A)) != A', vals)
+                    break
+                stats['sat_unreplayable'] += 1
+                unknown += 1
+        if bad is not None:
+            res.update(verdict='violated', detail=dict(what=bad[0], values=bad[1]))
+        elif left:
+            res.update(detail=f'{left} of {len(paths)} paths left the object-array domain: {res.get("error")}')
+        elif reach == 0:
+            res.update(verdict='vacuous', detail='no reachable path')
+        elif unknown:
+            res.update(detail=f'{unknown} of {len(paths)} paths undecided')
+        else:
+            res.update(verdict='discharged', detail=dict(paths=len(paths), reachable=reach))
+    except Exception as e:  # noqa
+        import traceback
+        res.update(verdict='error', detail=f'{type(e).__name__}: {e} {traceback.format_exc()[-300:]}')
+    finally:
+        est.np = real_np
+        res['solver_s'] = time.time() - t0
+    return res
+
+
 BIG = {'cov2corr', 'corr2cov', 'cov_corr_cov', 'se_from_cov', 'corr_from_cov', 'cov_from_corrse'}
 
 
@@ -391,11 +513,15 @@ def task_list(thorough):
     todo = [(n, nm) for n in (1, 2, 3) for nm in names]
     if thorough:
         todo += [(4, nm) for nm in names if nm in BIG]
+    for n in (1, 2, 3):
+        todo += [('ucp', n, pat) for pat in _ucp_patterns(n)]
     return todo
 
 
 def conv_task(task):
     """one conversion obligation; returns a plain dict (runs in a worker process)."""
+    if task[0] == 'ucp':
+        return ucp_task(task)
     import warnings
     warnings.simplefilter('ignore')
     import pandas as pd
@@ -484,9 +610,13 @@ def record(run, res, stats):
     ob = res['name']
     if res['verdict'] == 'violated':
         d = res['detail']
-        n, short = res['task']
-        v = run.report_violation(ob, f"{ob} :: {d['what']}", dict(kind='C11conv', name=f'{short}[n={n}]',
-                                                                   values=d['values']), f"{d['what']} at {d['values']}")
+        if res['task'][0] == 'ucp':
+            rname = 'ucp:' + json.dumps(list(res['task']))
+        else:
+            n, short = res['task']
+            rname = f'{short}[n={n}]'
+        v = run.report_violation(ob, f"{ob} :: {d['what']}", dict(kind='C11conv', name=rname, values=d['values']),
+                                 f"{d['what']} at {d['values']}")
         run.add(ob, v, res['solver_s'], d)
     elif res['verdict'] in ('vacuous', 'error'):
         run.add(ob, res['verdict'], res['solver_s'], res['detail'])
@@ -510,6 +640,17 @@ def replay(d):
     import pharmpy.internals.math as im
     import pharmpy.modeling.math as mm
     name, vals = d['name'], d['values']
+    if name.startswith('ucp:'):
+        import pharmpy.modeling.estimation as est
+        _, n, pattern = json.loads(name[4:])
+        Lf = np.array([[vals.get(f'l_{i}{j}', 0.0) if j <= i else 0.0 for j in range(n)] for i in range(n)])
+        Af = Lf @ Lf.T
+        u0 = np.where(Lf < 0, -0.1, 0.1)
+        u0 = np.tril(u0) + np.tril(u0, -1).T
+        got = est._descale_matrix(u0.copy(), est._scale_matrix(Af))
+        ok = _close(got, Af, 1e-6)
+        print(f'{name}: descale(u0, scale(A)) {"== A" if ok else "!= A: VIOLATED"}\nA={Af}\ngot={got}')
+        return 0 if ok else 1
     n = int(name.split('n=')[1].rstrip(']'))
     for nm, base, syms, srun, goal, num in _cases(n, mm, im, pd):
         if nm == name:
